@@ -232,6 +232,8 @@ Definition step_op (rs : regs) (op : list Z) : regs * list Z :=
            | None => [-1]
            | Some l => enc_paths (flat_map snd l)
            end)
+  (* sample < 1 draws source/target pairs at random (numpy): not modelled; the implementation side checks the subset relation *)
+  | 65 :: _ => (rs, [1])
   | 63 :: l => (rs, enc_annotated (annotate_paths (dec_paths (S (length l)) l)))
   | 64 :: l => (rs, flat_pairs (compact_timeslot l))
   (* --- readers / writers --- *)
